@@ -40,7 +40,10 @@ def families(tier, seed):
                     for es in [set(), {(0, 1)}, {(1, 2)}, {(2, 0)}]:
                         tagc.append(("decorator", dict(enumerate(sc)), {"t0": list(carriers), "t1": [2]}, None, [("t0", list(dref), list(dtag))], es))
     r.shuffle(tagc)
-    for kind, sc, tc, tr, ds, es in tagc[: (len(tagc) if tier == "thorough" else 350)]:
+    if tier != "thorough":
+        # stratified: the tag-request tuples are a tenth of the decorator tuples and would all but vanish from a common sample
+        tagc = [t for t in tagc if t[0] == "tag"][:120] + [t for t in tagc if t[0] == "decorator"][:230]
+    for kind, sc, tc, tr, ds, es in tagc:
         out.append((kind, graphgen.graph_cfg(3, es, tag_carriers=tc, tag_requests=tr, decorators=ds, scopes=sc)))
     # several decorators on different tags, in both declaration orders: the dependencies of one decorator are not those of another
     multi = []
